@@ -46,7 +46,7 @@ func (prop) Gen(r *core.Rand, tier string) []core.Case {
 	for i := 0; i < n; i++ {
 		c := core.Case{ID: fmt.Sprintf("g%d", i)}
 		alen := 8
-		if r.Intn(6) == 0 {
+		if r.Intn(3) == 0 {
 			alen = 32
 		}
 		base := r.Bytes(alen)
@@ -56,6 +56,31 @@ func (prop) Gen(r *core.Rand, tier string) []core.Case {
 			bins = append(bins, r.Range(6, 31), 31)
 		}
 		uni := kadh.Universe(r, base, bins, r.Pick([]int{0, 1, 2, 3, 5, 8, 11, 14}))
+		// siblings: peers that agree with another peer on a long prefix (first difference at byte >= 8, or in the
+		// last byte for short addresses), so that closeness is decided late in the address
+		if len(uni) > 0 && r.Chance(50) {
+			for k := r.Range(1, 4); k > 0; k-- {
+				sib := append([]byte(nil), uni[r.Intn(len(uni))]...)
+				lo := 8 * (alen - 1)
+				if alen > 8 {
+					lo = 64
+				}
+				bit := r.Range(lo, 8*alen-1)
+				sib[bit/8] ^= 1 << uint(7-bit%8)
+				for b := bit + 1; b < 8*alen; b++ { // randomise everything after the first difference
+					if r.Bool() {
+						sib[b/8] ^= 1 << uint(7-b%8)
+					}
+				}
+				dup := false
+				for _, a := range uni {
+					dup = dup || bytes.Equal(a, sib)
+				}
+				if !dup && !bytes.Equal(sib, base) {
+					uni = append(uni, sib)
+				}
+			}
+		}
 		strangers := kadh.Universe(r, base, bins, 3)
 		reachPct := r.Pick([]int{0, 50, 100})
 		var conn [][]byte
